@@ -91,7 +91,7 @@ type FileOpts struct {
 }
 
 // AllFreedoms is the C02 configuration.
-var AllFreedoms = FileOpts{MaxTracks: 5, MaxEvents: 14, MaxPayload: 20000, Alien: true, Pads: true, Running: true, Escapes: true, UnknownMeta: true}
+var AllFreedoms = FileOpts{MaxTracks: 5, MaxEvents: 14, MaxPayload: 70000, Alien: true, Pads: true, Running: true, Escapes: true, UnknownMeta: true}
 
 var textTypes = []byte{0x01, 0x02, 0x03, 0x04, 0x05, 0x06, 0x07, 0x08, 0x09, 0x7F}
 
